@@ -234,6 +234,7 @@ def exotic_case(family, n, E, X):
                 sorted(((num(a), num(b)) for a, ds in G2._next.items() for b in ds), key=str))
     G = DiGraph(V=objs, E=[(objs[a], objs[b]) for a, b in E])
     before = nset(G)
+    g = [[num(k), [num(d) for d in ds]] for k, ds in G._next.items()]      # the model's input: read BEFORE any call
     Xo = [objs[i] if i < n else extra for i in X]
     obs = {}
     r = call(lambda: G.get_reachable_set_from(list(Xo)))
@@ -251,7 +252,6 @@ def exotic_case(family, n, E, X):
         obs['clone_next'] = q
         obs['clone_shares'] = any(C._next[k] is G._next.get(k) for k in C._next if k in G._next)
     obs['unchanged'] = (nset(G) == before)
-    g = [[num(k), [num(d) for d in ds]] for k, ds in G._next.items()]
     return g, obs
 
 
